@@ -282,6 +282,7 @@ def emit_module(modname, enums, consts):
             body = ", ".join(f"0x{v:02X}" for v in val)
             lines.append(f"def {name} : List UInt8 := [{body}]")
             lines.append(f"def {name}_LEN : Nat := {len(val)}")
+            lines.append(f"@[simp] theorem {name}_length : {name}.length = {len(val)} := by decide +kernel")
         elif kind == "bool":
             lines.append(f"def {name} : Bool := {'true' if val else 'false'}")
         elif kind == "nat":
